@@ -23,10 +23,10 @@ KERNELS = {
  "C16": "BamBufferExtractor fixed-offset fields and derived variable-field offsets against the SAM spec table, split_cigar, BamBuffer._find_starts (block_size chaining, maximality), count_reference_length (exactly M,D,N,=,X), alignment_to_interval (stop, strand bit 0x10)",
  "C17": "IndexedFasta.__getitem__ (row/column reshape against the faidx layout predicate), get_contig_lengths, create_index offset accumulation (2 and 3 chunks), get_interval_sequences: row lengths, allocation offsets, deleted positions = newline bytes (the content clause itself is bounded)",
  "C18": "the exact decimal digit count (_n_decimal_digits) for every magnitude below 2**63 (19-case split over the real table)",
+ "C19": "ONLY BNPDataClass.sort_by (one sorting permutation applied to every column, operand unmodified, given np.argsort's partial contract and the assumed column-wise indexing); everything else of this property is npstructures / run-time class construction and is bounded",
  "C20": "frame conditions (heap model): str_to_int, str_to_float (callees that overwrite their argument only receive copies), merge_intervals",
 }
 BOUNDED_ONLY = {
- "C19": "table operations vs list-of-tuples model over operation programs",
 }
 checks = []
 for i in range(1, 21):
